@@ -20,7 +20,7 @@ func init() {
 		ID:    "C19",
 		Title: "A file snapshot is a consistent, openable point-in-time copy",
 		Decides: "in TakeFileSnapshot (measure, stream, trace, sidx) the table snapshot is pinned before the link loop, stays pinned until the function returns (no use after release) and the manifest is written from that same pinned value after the links; the manifest lists only parts the link loop links (same mem-part filter); a failed snapshot removes its destination; " +
-			"the storage segment snapshot path never reaches the reopen/acquire functions, pins an open segment under the segment mutex only when it is open and releases it, and holds the mutex across the hard-link of a closed segment; the closed-segment filter excludes exactly the transient names; CreateHardLink skips a whole directory only for directories; trace reads its secondary-index map under the table lock.",
+			"the storage segment snapshot path never reaches the reopen/acquire functions, pins an open segment under the segment mutex only when it is open and releases it, and holds the mutex across the hard-link of a closed segment; the closed-segment filter excludes exactly the transient names; CreateHardLink skips a whole directory only for directories; trace reads its secondary-index map under the table lock.; the backup tool prunes the remote copy (deletes files of the previous backup) and reports success only when the directory walk and every upload returned no error",
 		NotDecided: "that the copy equals one state that existed (core and secondary-index views are pinned at different instants), behaviour under concurrent retention, durability of the copy after power loss.",
 		Technique:  "acquire/release pairing with use-after-release, CFG ordering, call-graph unreachability, must-lockset, filter-agreement on guarded appends",
 		Run:        runC19,
@@ -489,5 +489,55 @@ func (r *R) closedFilterRule() {
 			}
 		}
 		r.Check(ok, rule, "snapshotClosed passes includeInClosedSnapshot", r.fpos(sc), "the closed-segment hard-link uses the transient-name filter")
+	}
+
+	// backup: the remote copy is pruned (files of the previous backup deleted) and success reported only when
+	// the walk and every upload succeeded
+	if f := r.fn("c19.backup-prunes-only-when-complete", "banyand/backup", "backupSnapshot"); f != nil {
+		rule := "c19.backup-prunes-only-when-complete"
+		prune := func(in ssa.Instruction) bool {
+			cc := ssax.Common(in)
+			return cc != nil && strings.HasSuffix(ssax.CalleeName(cc), "remote.FS).Delete")
+		}
+		okExit := ssax.SuccessExit(f)
+		target := func(in ssa.Instruction) bool { return prune(in) || okExit(in) }
+		n := 0
+		for _, src := range ssax.Find(f, func(in ssa.Instruction) bool {
+			c, ok := in.(*ssa.Call)
+			if !ok {
+				return false
+			}
+			nm := ssax.CalleeName(c.Common())
+			return nm == "(*golang.org/x/sync/errgroup.Group).Wait" || nm == "path/filepath.Walk" || nm == "path/filepath.WalkDir"
+		}) {
+			v := ssa.Value(src.(*ssa.Call))
+			n++
+			// world: this error is non-nil
+			edge := func(from *ssa.BasicBlock, succ int) bool {
+				iff, ok := from.Instrs[len(from.Instrs)-1].(*ssa.If)
+				if !ok {
+					return true
+				}
+				bo, ok := iff.Cond.(*ssa.BinOp)
+				if !ok || bo.Op != token.EQL && bo.Op != token.NEQ {
+					return true
+				}
+				if !(bo.X == v && ssax.IsNilConst(bo.Y) || bo.Y == v && ssax.IsNilConst(bo.X)) {
+					return true
+				}
+				if bo.Op == token.NEQ {
+					return succ == 0
+				}
+				return succ == 1
+			}
+			construct := fmt.Sprintf("%s: no pruning / success when %s failed", ssax.FuncName(f), ssax.CalleeName(src.(*ssa.Call).Common()))
+			if tgt, path, found := (ssax.Search{Target: target, Edge: edge}).From(f, src); found {
+				r.Violate(rule, construct, r.pos(tgt), fmt.Sprintf("with a non-nil error from the call at %s control still reaches %s (blocks %s): an interrupted backup deletes the files of the previous complete backup and/or reports success, leaving a remote copy whose manifest names parts that were never uploaded", r.pos(src), r.pos(tgt), blocksStr(path)))
+			} else {
+				r.Hold(rule, construct, r.pos(src), "")
+			}
+		}
+		r.Floor(rule, 2)
+		_ = n
 	}
 }
